@@ -131,11 +131,32 @@ def c14b(ctx):
     rets = returns_of(base.node)
     ctx.check(bool(rets) and all(const_value(r.value, 1) is False for r in rets), 'MapLayer.is_opaque:false', 'the generic layer is never opaque', base,
               fail='MapLayer.is_opaque can answer True for layers that do not know their transparency')
-    for qn, coll in ((WMS + ':WMSLayer.is_opaque', 'self.map_layers'), (WMS + ':WMSGroupLayer.is_opaque', 'self.layers')):
-        f = ctx.fn(qn)
-        rets = returns_of(f.node)
-        ok = bool(rets) and all(is_call(r.value, 'any') and contains(r.value, lambda x: is_call(x, 'is_opaque')) for r in rets)
-        ctx.check(ok, '%s:any-child' % f.short, 'a WMS layer is opaque iff one of its map layers is', f)
+    f = ctx.fn(WMS + ':WMSLayer.is_opaque')
+    rets = returns_of(f.node)
+    ok = bool(rets) and all(is_call(r.value, 'any') and contains(r.value, lambda x: is_call(x, 'is_opaque')) and
+                            contains(r.value, lambda x: isinstance(x, ast.Attribute) and unparse(x) == 'self.map_layers') for r in rets)
+    ctx.check(ok, '%s:any-child' % f.short, 'a WMS layer is opaque iff one of its map layers is', f)
+    # a group answers for what it draws: with sources of its own (`this`) only those are rendered when the group is requested
+    # (map_layers_for_query), so only they can make it opaque; without, the child layers are rendered
+    f = ctx.fn(WMS + ':WMSGroupLayer.is_opaque')
+    g_ = f.cfg
+    rets = g_.find_stmts(lambda s_: isinstance(s_, ast.Return))
+    ok = bool(rets)
+    for r in rets:
+        v = g_.stmt[r].value
+        if is_call(v, 'self.this.is_opaque'):
+            ok = ok and g_.guarded(r, lambda at: at.op is None and at.text == 'self.this', True)
+        elif is_call(v, 'any') and contains(v, lambda x: is_call(x, 'is_opaque')) and contains(v, lambda x: isinstance(x, ast.Attribute) and unparse(x) == 'self.layers'):
+            ok = ok and g_.guarded(r, lambda at: at.op is None and at.text == 'self.this', False)
+        else:
+            ok = False
+    mq = ctx.fn(WMS + ':WMSGroupLayer.map_layers_for_query')
+    gq = mq.cfg
+    own = gq.find(lambda x: is_call(x, 'self.this.map_layers_for_query'))
+    ok = ok and bool(own) and all(gq.guarded(n, lambda at: at.op is None and at.text == 'self.this', True) for n, x in own)
+    ctx.check(ok, 'WMSGroupLayer.is_opaque:what-it-draws', 'a group with own sources is as opaque as those, a group without as its children: the same split as map_layers_for_query', f,
+              fail='WMSGroupLayer.is_opaque asks layers that the group does not draw (children of a group that renders its own sources): the layers below are '
+                   'pruned although the group does not cover them')
     mp = ctx.fn(WMS + ':WMSServer.map')
     g = mp.cfg
     resets = [n for n in g.find_stmts(lambda s: isinstance(s, ast.Assign) and unparse(s.targets[0]) == 'actual_layers' and is_call(s.value, 'odict'))
